@@ -150,6 +150,45 @@ def run(ctx):
         for t in times:
             if sp.get('zones'): tzmap[len(items)] = sp['zones']
             items.append((se, t, {certurl: k['chain']}))
+    import hashlib as _hl, re as _re
+    # (i) an independent producer (the model's MI step, signed message and Signature header; ECDSA by the stdlib): exchanges the library
+    #     itself might refuse to *sign* must still be judged by the verifier on the conditions alone -- b1/b2 with status codes net/http
+    #     has no name for (storability by a cache is a b3 condition), and a few ordinary ones as controls
+    k0 = keys[0]
+    csha = _hl.sha256(unhex(k0['cert'])).hexdigest()
+    vu0 = b'https://example.com/v'
+    prod = []
+    for ver in VERS:
+        for st in (299, 306, 420, 509, 599, 200, 404, 999, 100):
+            prod.append(ex(ver, b'https://example.com/', b'GET', [], st, [(b'Content-Type', [b'text/html'])], b'', b'independent producer'))
+    mi = ctx.model([f'sxg.mi {exs(e)} 16' for e in prod])
+    mied = [parse_ex(x) if x else None for x in mi]
+    msgs = ctx.model([f'sxg.msg {exs(e)} {csha} {hexs(vu0)} {base_date} {base_date + 3600}' if e else 'oracle.status 0' for e in mied])
+    sigs = ctx.go([f'oracle.ecsign {k0["key"]} {m_.split(" ")[1]}' if m_ and m_.startswith('ok ') else 'oracle.status 0' for m_ in msgs])
+    hdrs_ = ctx.model([f'sxg.sigheader {e[0]} {sg.split(" ")[1]} {hexs(vu0)} {hexs(certurl)} {csha} {base_date} {base_date + 3600}' if e and sg and sg.startswith('ok ') else 'oracle.status 0' for e, sg in zip(mied, sigs)])
+    nprod = 0
+    for e, h_ in zip(mied, hdrs_):
+        if e and h_ and h_.startswith('ok '):
+            nprod += 1
+            items.append((e[:6] + [h_.split(' ')[1]] + e[7:], (base_date + 10, 0), {certurl: k0['chain']}))
+    if nprod < len(prod) // 2:
+        ctx.infra.append(f'independent producer made only {nprod} of {len(prod)} exchanges')
+    # (ii) the integrity scheme of ANOTHER version, consistently: its digest header, its content encoding, its payload stream, and the
+    #      (unsigned) integrity parameter rewritten to name it -- "integrity scheme matching the version" must refuse these
+    for ver, odraft, ohdr, oenc, oint in (('b3', '02', b'MI-Draft2', b'mi-sha256-draft2', b'mi-draft2'), ('b2', '02', b'MI-Draft2', b'mi-sha256-draft2', b'mi-draft2'),
+                                          ('b1', '03', b'Digest', b'mi-sha256-03', b'digest/mi-sha256-03')):
+        for plen in (40, 0, 16):
+            pay = rbytes(rng, plen)
+            me = ctx.model([f'mice.enc {odraft} 16 {hexs(pay)}'])[0]
+            if not (me and me.startswith('ok ')): continue
+            stream, dig = unhex(me.split(' ')[1]), unhex(me.split(' ')[2])
+            e = ex(ver, b'https://example.com/', b'GET', [], 200, [(b'Content-Type', [b'text/html']), (ohdr, [dig]), (b'Content-Encoding', [oenc])], b'', stream)
+            r = ctx.go([f'sxg.sign {exs(e)} 0 {k0["cert"]} {k0["key"]} {hexs(certurl)} {hexs(vu0)} {base_date} {base_date + 3600}'])[0]
+            se = parse_ex(r) if r else None
+            if not se: continue
+            h2 = _re.sub(rb'integrity="[^"]*"', b'integrity="' + oint + b'"', unhex(se[6]))
+            items.append((se[:6] + [hexs(h2)] + se[7:], (base_date + 10, 0), {certurl: k0['chain']}))
+            items.append((se, (base_date + 10, 0), {certurl: k0['chain']}))
     # several members in the Signature header: "run the algorithm for each signature, stopping at the first valid one" -- a member that is
     # incomplete, unparsable as a signature, or complete but wrong must not stop the valid one from being tried, whichever comes first
     seen_ver = set()
